@@ -56,13 +56,17 @@ def determinism(args):
 
 def main(argv):
     ap = argparse.ArgumentParser(prog="check selftest")
-    ap.add_argument("what", choices=["determinism", "sensitivity"])
+    ap.add_argument("what", choices=["determinism", "sensitivity", "seeded"])
     ap.add_argument("--runs", type=int, default=None)
     ap.add_argument("--only", default=None)
     ap.add_argument("--repo", default=os.environ.get("VERIF_REPO", "/repo"))
     ap.add_argument("--seeds", default="0,1,2")
     ap.add_argument("--props", default="C08,C09,C10,C11")
     args = ap.parse_args(argv)
+    if args.what == "seeded":
+        from sim import sensitivity
+
+        return sensitivity.seeded(args)
     if args.what == "sensitivity":
         from sim import sensitivity
 
